@@ -385,6 +385,20 @@ fn enumerate(_tier: Tier, idx: u32, of: u32, cx: &mut Cx) -> CaseResult {
     cx.add_evals(1);
     cx.inner_nontrivial += 1;
 
+    // a basis of two hunks with the default options (more than 100 000 entries)
+    crate::engine::heartbeat();
+    let (opts, tree) = crate::probes::over_default_hunk_tree();
+    let sub = cx.dir("over-default-hunk");
+    std::fs::create_dir_all(&sub).unwrap();
+    let mut cx2 = crate::engine::sub_cx(cx, sub.clone());
+    run_twice(opts, opts, &tree, &mut cx2).map_err(|mut f| {
+        f.signature = format!("{}/probe-over-default-hunk", f.signature);
+        f
+    })?;
+    crate::engine::force_remove(&sub);
+    cx.add_evals(1);
+    cx.inner_nontrivial += 1;
+
     crate::engine::heartbeat();
     let o = Opts { hunk: 2, block: 1 << 16, cap: 1 << 20 };
     let sc = Scenario {
